@@ -14,8 +14,9 @@ class NativeQuery(ASTNode):
         self.query = query
 
     def to_tree(self, *args, level=0, **kwargs):
+        alias_str = f', alias={self.alias.to_tree()}' if self.alias else ''
         return indent(level) + \
-               f'NativeQuery(integration={self.integration.to_string()}, query="{self.query}")'
+               f'NativeQuery(integration={self.integration.to_string()}, query="{self.query}"{alias_str})'
 
     def get_string(self, *args, **kwargs):
         # standard native query render is used in create view
